@@ -4025,6 +4025,9 @@ async fn run_rtp_direct_loop(
                     return;
                 }
                 if !handle_connected_state_no_dtls(&inner_weak, &mut ice_state_rx).await {
+                    if let Some(inner) = inner_weak.upgrade() {
+                        inner.fail_if_not_ended();
+                    }
                     return;
                 }
                 continue;
@@ -4165,6 +4168,9 @@ async fn run_ice_dtls_loop(
 
                 if transport_mode != TransportMode::WebRtc {
                     if !handle_connected_state_no_dtls(&inner_weak, &mut ice_state_rx).await {
+                        if let Some(inner) = inner_weak.upgrade() {
+                            inner.fail_if_not_ended();
+                        }
                         return;
                     }
                     continue;
@@ -4178,6 +4184,9 @@ async fn run_ice_dtls_loop(
                 )
                 .await
                 {
+                    if let Some(inner) = inner_weak.upgrade() {
+                        inner.fail_if_not_ended();
+                    }
                     return;
                 }
                 continue;
@@ -4592,6 +4601,33 @@ impl PeerConnectionInner {
                 false
             } else {
                 *cur = state;
+                true
+            }
+        });
+    }
+
+    /// Called when the state machine that drives this connection gives up for
+    /// good (transport start failed, the peer closed DTLS, the SCTP/RTCP loops
+    /// ended). Nothing will update the peer state after that, so it must not
+    /// be left at `Connected`/`Disconnected`: `wait_for_connected()` and
+    /// applications watching the state would wait forever.
+    fn fail_if_not_ended(&self) {
+        self.disconnect_reason.send_if_modified(|cur| {
+            if cur.is_none() {
+                *cur = Some(DisconnectReason::Unknown("transport ended".into()));
+                true
+            } else {
+                false
+            }
+        });
+        self.peer_state.send_if_modified(|cur| {
+            if matches!(
+                *cur,
+                PeerConnectionState::Failed | PeerConnectionState::Closed
+            ) {
+                false
+            } else {
+                *cur = PeerConnectionState::Failed;
                 true
             }
         });
